@@ -181,7 +181,7 @@ func c14Bursts() []c14Burst {
 		{"rotation", func(S *world.Server, st *c14State) error {
 			snap := S.VerifSnapshot()
 			glow.SetCurrentTimeslot(snap.Offset + 3300)
-			if !S.S.VerifStep("migrate") {
+			if !world.Step(S.S, "migrate") {
 				return fmt.Errorf("burst rotation did not complete")
 			}
 			return nil
